@@ -91,6 +91,7 @@ def inputs(ctx, n, thorough):
         if rng.random() < 0.3:
             recs = [(n_, s[:max(1, len(s) - 2 * k)]) for k, (n_, s) in enumerate(recs)]   # caterpillar
         t = rng.choice([3, 4, 5]) if kind == "protein" else rng.choice([0, 1, 2, 5])
+        t = gen.fit_type(t, kind, recs)
         out.append((recs, t))
     return out
 
